@@ -78,7 +78,7 @@ func ruleHint(p *Prog, r *RuleResult) {
 	// scope: the Writer data path
 	s := resolveSide(p, "Writer")
 	wh := p.MethodOpt("io", "Writer", "writeHeader")
-	roots := []*ssa.Function{p.Method("io", "Writer", "Write"), p.Method("io", "Writer", "Close"), s.parent, s.fn}
+	roots := []*ssa.Function{p.Method("io", "Writer", "Write"), p.Method("io", "Writer", "Close"), s.parent, s.entry, s.fn}
 	// the constructor sizes the block buffers: it is part of the data path as far as allocations are concerned
 	ctor := p.FuncOpt("io", "createWriterWithCtx")
 	if ctor != nil {
